@@ -310,8 +310,12 @@ def cases(seed, n):
 
 
 def replayer(obl, model):
+    nparts = []
     if model is not None and isinstance(model.get('npartition'), int) and 1 <= model['npartition'] <= 5000000:
-        npart = model['npartition']
+        nparts.append(model['npartition'])
+    # integer-width obligations only manifest beyond the narrow type's range: always try stripe counts past 2^15 and 2^16
+    nparts += [40000, 70000]
+    for npart in nparts:
         xs = sorted({min(max((k + 0.5) / npart, 0.0), 1.0) for k in (0, 1, npart // 2, 32767, 32768, 40000, npart - 2, npart - 1) if 0 <= k < npart})
         pos = [[x, 0.25 + 0.001 * q, 0.75] for q, x in enumerate(xs)]
         for nt in (1, 2):
